@@ -7,6 +7,11 @@ ALL = ["C%02d" % i for i in range(1, 21)]
 
 # property -> (category, technique, text, note, design_ref)
 CHECKS = {
+ "C16": ("exploration",
+   "bounded exhaustive enumeration of every small matrix over a value alphabet x 16 scaler / whitener configurations, every (train, unseen) pair of a pool with all row permutations and selections compared bitwise",
+   "Every n x p matrix (n 1..4, p 1..3, n*p <= 8/9) over {0, 1, -2, 1001, 1e-3} (constant, all-zero, offset and badly scaled columns, all-zero rows), a tiny-spread family (1e-12, 1e-18, 2^-52), f32 and f64, through standard / no-mean / no-std / neither, min-max with four ranges + a flipped one, max-abs, norm l1 / l2 / max and PCA / ZCA / Cholesky whitening: the post-conditions of the statement on the training matrix, the fitted transform equal to the affine map built from offsets()/scales() resp. transformation_matrix()/mean(), and for every (train A, unseen B) pair transform(B) row i == transform(B[i..i+1]) and commutation with EVERY permutation and EVERY subset of B's rows, bit for bit; whitening on a 702-member full-rank catalogue incl. global scales 1e-10 and 1e9; 384 dataset forms (targets, weights, names pass through unchanged); empty training data and flipped ranges are errors.",
+   "Whitening tolerance is condition-scaled (1e-8 + 64 eps cond(cov)); cases above 0.05 are indeterminate. Whiteners are never fitted on rank-deficient data (linfa-linalg's SVD does not terminate on NaN input; a watchdog turns a hang into a machinery error).",
+   "DESIGN.md 4/C16"),
  "C18": ("exploration",
    "exhaustive run of an enumerated finite catalogue of matrices x every embedding size (incl. the error sizes) x whitening, against an own Jacobi eigen-decomposition of the sample covariance",
    "164 / 2488 catalogue matrices (n in {6,9,12,20} / 6..20, p in {1,2,3,5}: rank-1 lattices, exactly isotropic sets, axis scales 1:10:100 plain and rotated, low-rank + jitter, offsets 1e3, column scales 1e-3 / 1e3) x every k in 0..=p+1 x whitening off / on, plus empty data. Oracle (own cyclic Jacobi on the n-1 covariance, residual verified per matrix): components orthonormal, singular values non-increasing, each axis aligned with its eigenvector (degenerate blocks compared by projector), variances of the projected data == explained_variance == sigma^2/(n-1) == eigenvalue, retained variance == sum of the k largest eigenvalues (Ky Fan), whitened covariance == I, inverse_transform(transform(X)) == orthogonal projection about the mean, ratios finite and proportional, errors for empty data and sizes outside 1..p, predict == transform.",
